@@ -507,14 +507,18 @@ class CallMixin:
                 self.havoc_modifies(c, env)
                 for k, v in rk.items():
                     env.locals["exc_" + k] = v
+                n_pc = len(self.ctx.pc)
                 for cl in c.on_raise.get(exc, []):
-                    try:
-                        t = self.spec_bool(cl, env)
-                    except Unsupported as u:
-                        if str(u).startswith("unbound name "):
-                            continue  # clause over a local of the callee / an exception attribute the contract does not export: not assumed (see ensures below)
-                        raise
-                    self.ctx.assume(t)
+                    self._assume_callee_clause(c, cl, env)
+                if cond is None and len(self.ctx.pc) > n_pc and not self.ctx._feasible(z3.BoolVal(True)):
+                    # "may raise" outcome whose on_raise clauses are contradicted by the state of THIS call (e.g. the callee
+                    # promises `MessageError only for a frame that ends the stream` and the frame does not): the callee
+                    # cannot raise this exception here.  The path condition was feasible when the outcome was chosen
+                    # (ctx.branch), so the contradiction comes from the callee's own guarantee, not from the caller's
+                    # assumptions: the path is infeasible and dropped (added for C16; before, the vacuity guard reported it)
+                    from .core import PathEnd
+
+                    raise PathEnd()
                 for cl in invs:
                     self.ctx.assume(self.spec_bool(cl, env))
                 raise PyRaise(exc, site=site, kwargs=rk)
@@ -538,19 +542,23 @@ class CallMixin:
                 self.ctx.assume(z3.Implies(z3.Not(sym.opt_is_none(res)), self.ref_wf_term(sym.opt_val(res).t)))
         env.result = res
         for cl in c.ensures:
-            try:
-                t = self.spec_bool(cl, env)
-            except Unsupported as u:
-                # an ensures clause that names a LOCAL of the callee ("locals of the function are visible by name" holds only
-                # while the callee itself is verified) cannot be stated at a call site: it is not assumed there (assuming
-                # less is sound; the caller simply learns nothing from that clause)
-                if str(u).startswith("unbound name "):
-                    continue
-                raise
-            self.ctx.assume(t)
+            self._assume_callee_clause(c, cl, env)
         for cl in invs:
             self.ctx.assume(self.spec_bool(cl, env))
         return res
+
+    def _assume_callee_clause(self, c, cl, env):
+        """Assume a postcondition / on_raise clause of a callee at a call site.  Such clauses may mention LOCALS of the
+        callee ("locals of the function are visible by name" - meaningful only when the callee itself is verified).  A
+        clause that cannot be evaluated at the call site because it names such a local is SKIPPED: assuming fewer facts
+        about the callee is always sound (added for C16: callers of H3Connection._handle_request_or_push_frame)."""
+        try:
+            t = self.spec_bool(cl, env)
+        except Unsupported as u:
+            if str(u).startswith("unbound name "):
+                return
+            raise
+        self.ctx.assume(t)
 
     def raise_kwargs(self, c, exc, env):
         out = {}
@@ -1098,6 +1106,19 @@ class CallMixin:
             return EmptyLiteral("set")
         raise Unsupported("set(iterable)")
 
+    def bi_dict(self, node, env):
+        """dict() / dict(d) for a dict-typed d (added for C16, h3 parse_settings): a shallow copy.  Dicts are VALUES
+        (domain array, value array) in this engine, so the copy is the same value; never fails."""
+        if not node.args and not node.keywords:
+            return EmptyLiteral("dict")
+        if len(node.args) == 1 and not node.keywords:
+            v = self.eval(node.args[0], env)
+            if isinstance(v, EmptyLiteral) and v.kind == "dict":
+                return v
+            if isinstance(v, V) and isinstance(v.ty, TDict):
+                return v
+        raise Unsupported("dict(...) of a non-dict")
+
     def bi_frozenset(self, node, env):
         """frozenset() / frozenset(<tuple display>): the set whose members are exactly the tuple's items"""
         if not node.args:
@@ -1227,6 +1248,21 @@ class CallMixin:
                 return NONE
             if name == "discard":
                 self.mutate(tgt, recv, V(ty, z3.Store(recv.t, self.set_key(ty, args[0]), False)), env)
+                return NONE
+            if name == "update" and len(args) == 1 and isinstance(args[0], V) and isinstance(args[0].ty, TList) and ty.k == TInt and args[0].ty.elem == TInt:
+                # set[int].update(list[int]) (added for C16): the new set has exactly the old members and the list's
+                # elements.  "e occurs in the list" is expressed with a ghost witness map w (index of an occurrence).
+                lst = args[0]
+                n, L = sym.list_len(lst), sym.list_arr(lst)
+                ns = self.ctx.fresh_const(recv.t.sort(), "set_upd")
+                w = self.ctx.fresh_const(z3.ArraySort(z3.IntSort(), z3.IntSort()), "set_upd_w")
+                e = z3.FreshConst(z3.IntSort(), "e")
+                i = z3.FreshConst(z3.IntSort(), "i")
+                self.ctx.assume(z3.ForAll([i], z3.Implies(z3.And(0 <= i, i < n), z3.Select(ns, z3.Select(L, i))), patterns=[z3.Select(L, i)]))
+                self.ctx.assume(z3.ForAll([e], z3.Implies(z3.Select(recv.t, e), z3.Select(ns, e)), patterns=[z3.Select(recv.t, e)]))
+                we = z3.Select(w, e)
+                self.ctx.assume(z3.ForAll([e], z3.Implies(z3.Select(ns, e), z3.Or(z3.Select(recv.t, e), z3.And(0 <= we, we < n, z3.Select(L, we) == e))), patterns=[z3.Select(ns, e)]))
+                self.mutate(tgt, recv, V(ty, ns), env)
                 return NONE
             if name == "difference" and len(args) == 1 and isinstance(args[0], V) and args[0].ty == ty:
                 # a new set: members of recv that are not members of the argument
